@@ -28,10 +28,19 @@ impl StateMachine<'_> {
         if !self.test_submodule_short_line() || self.config.color_only {
             return Ok(false);
         }
-        if let Some(commit) = get_submodule_short_commit(&self.line) {
+        let Some(commit) = get_submodule_short_commit(&self.line).map(str::to_owned) else {
+            // Not a submodule commit after all: an ordinary hunk line.
+            self.emit_unpaired_submodule_short_line()?;
+            return Ok(false);
+        };
+        {
             if let State::HunkHeader(_, _, _, _) = self.state {
-                self.state = State::SubmoduleShort(commit.to_owned());
+                // Held back until its '+' counterpart arrives.
+                self.pending_submodule_short_line =
+                    Some((self.state.clone(), self.line.clone(), self.raw_line.clone()));
+                self.state = State::SubmoduleShort(commit);
             } else if let State::SubmoduleShort(minus_commit) = &self.state {
+                self.pending_submodule_short_line = None;
                 self.painter.emit()?;
                 writeln!(
                     self.painter.writer,
@@ -46,6 +55,20 @@ impl StateMachine<'_> {
             }
         }
         Ok(true)
+    }
+
+    /// A '-Subproject commit' line that its '+' counterpart does not follow (a deleted
+    /// submodule, or a file starting with such a line) is shown as the hunk line it is.
+    pub fn emit_unpaired_submodule_short_line(&mut self) -> std::io::Result<()> {
+        if let Some((state, line, raw_line)) = self.pending_submodule_short_line.take() {
+            let line = std::mem::replace(&mut self.line, line);
+            let raw_line = std::mem::replace(&mut self.raw_line, raw_line);
+            self.state = state;
+            self.handle_hunk_line()?;
+            self.line = line;
+            self.raw_line = raw_line;
+        }
+        Ok(())
     }
 }
 
